@@ -92,6 +92,30 @@ def extend(g, api):
     g.nat('bbrRoundTripsWithoutGrowth', BBR + '::K_ROUND_TRIPS_WITHOUT_GROWTH_BEFORE_EXITING_STARTUP',
           lambda: const_value(read(BBR), 'K_ROUND_TRIPS_WITHOUT_GROWTH_BEFORE_EXITING_STARTUP'))
 
+    # constructors: the initial window as a function of the configured window and the initial MTU
+    def ctor_window(path, marker, field, pre=None):
+        body = strip_comments(fn_body(read(path), 'new', after=marker))
+        m = re.findall(r'\b' + field + r'\s*:\s*([^,\n]+),', body)
+        if len(m) != 1:
+            raise TranslateError(f'{marker}::new: field {field} found {len(m)} times')
+        e = m[0]
+        if pre:
+            e = re.sub(pre[0], pre[1], e)
+        return 'fun (initialWindow mtu : Nat) => ' + translate_expr(
+            e, {'config.initial_window': 'initialWindow', 'initial_window': 'initialWindow', 'current_mtu': 'mtu',
+                'min_window_of_mtu': '(%d * mtu)' % bbr_min_window_factor()})
+    g.term('newRenoInitialWindow', 'Nat → Nat → Nat', RENO + '::NewReno::new window',
+           lambda: ctor_window(RENO, 'impl NewReno', 'window'))
+    g.term('cubicInitialWindow', 'Nat → Nat → Nat', CUBIC + '::Cubic::new state.window',
+           lambda: ctor_window(CUBIC, 'impl Cubic', 'window'))
+    BBRPRE = (r'calculate_min_window\(current_mtu as u64\)', 'min_window_of_mtu')
+    g.term('bbrInitialCwnd', 'Nat → Nat → Nat', BBR + '::Bbr::new cwnd',
+           lambda: ctor_window(BBR, 'impl Bbr', 'cwnd', BBRPRE))
+    g.term('bbrInitialInitCwnd', 'Nat → Nat → Nat', BBR + '::Bbr::new init_cwnd',
+           lambda: ctor_window(BBR, 'impl Bbr', 'init_cwnd', BBRPRE))
+    g.term('bbrInitialMinCwnd', 'Nat → Nat → Nat', BBR + '::Bbr::new min_cwnd',
+           lambda: ctor_window(BBR, 'impl Bbr', 'min_cwnd', BBRPRE))
+
     # on_mtu_update of the three controllers (translated bodies: new window as a function of the old one)
     def mtu_update(path, marker, window_field, rename):
         body = strip_comments(fn_body(read(path), 'on_mtu_update', after=marker))
@@ -119,18 +143,22 @@ def extend(g, api):
         stmts = mtu_update(BBR, 'impl Controller for Bbr', 'self.cwnd', {})
         want = [r'self\.min_cwnd\s*=\s*calculate_min_window\(self\.current_mtu\)',
                 r'self\.init_cwnd\s*=\s*(self\.config\.initial_window\.max\(self\.min_cwnd\))',
-                r'self\.cwnd\s*=\s*(self\.cwnd\.max\(self\.min_cwnd\))']
-        if len(stmts) != 3:
+                r'self\.cwnd\s*=\s*(self\.cwnd\.max\(self\.min_cwnd\))',
+                r'self\.recovery_window\s*=\s*(self\.recovery_window\.max\(self\.min_cwnd\))']
+        if len(stmts) != 4:
             raise TranslateError(f'Bbr::on_mtu_update statements {stmts}')
         ms = [re.fullmatch(w, s) for w, s in zip(want, stmts)]
         if not all(ms):
             raise TranslateError(f'Bbr::on_mtu_update shape changed: {stmts}')
-        ren = {'self.config.initial_window': 'initialWindow', 'self.min_cwnd': 'minCwnd', 'self.cwnd': 'cwnd'}
-        return ms[1].group(1), ms[2].group(1), ren
+        ren = {'self.config.initial_window': 'initialWindow', 'self.min_cwnd': 'minCwnd', 'self.cwnd': 'cwnd',
+               'self.recovery_window': 'recoveryWindow'}
+        return ms[1].group(1), ms[2].group(1), ren, ms[3].group(1)
     g.term('bbrMtuInitCwnd', 'Nat → Nat → Nat', BBR + '::Bbr::on_mtu_update init_cwnd',
            lambda: 'fun (initialWindow minCwnd : Nat) => ' + translate_expr(bbr_mtu()[0], bbr_mtu()[2]))
-    g.term('bbrMtuCwnd', 'Nat → Nat → Nat', BBR + '::Bbr::on_mtu_update cwnd (recovery_window is not touched)',
+    g.term('bbrMtuCwnd', 'Nat → Nat → Nat', BBR + '::Bbr::on_mtu_update cwnd',
            lambda: 'fun (cwnd minCwnd : Nat) => ' + translate_expr(bbr_mtu()[1], bbr_mtu()[2]))
+    g.term('bbrMtuRecoveryWindow', 'Nat → Nat → Nat', BBR + '::Bbr::on_mtu_update recovery_window',
+           lambda: 'fun (recoveryWindow minCwnd : Nat) => ' + translate_expr(bbr_mtu()[3], bbr_mtu()[2]))
 
     # ---- poll_transmit: the congestion test
     def gate():
@@ -144,3 +172,53 @@ def extend(g, api):
                                  'congestion_window': 'window'})
         return 'fun (inFlight bytesToSend window : Nat) => ' + e
     g.term('congestionBlocked', 'Nat → Nat → Nat → Bool', MOD + '::Connection::poll_transmit congestion test', gate)
+
+    # ---- detect_lost_packets: the packet- and time-threshold decision
+    LIB = 'quinn-proto/src/lib.rs'
+    TCFG = 'quinn-proto/src/config/transport.rs'
+
+    def dlp():
+        return strip_comments(fn_body(read(MOD), 'detect_lost_packets'))
+
+    def granularity_ns():
+        m = re.search(r'const\s+TIMER_GRANULARITY\s*:\s*Duration\s*=\s*Duration::from_millis\((\d+)\)\s*;', read(LIB))
+        if not m:
+            raise TranslateError('TIMER_GRANULARITY is not Duration::from_millis(n)')
+        return int(m.group(1)) * 1_000_000
+    g.nat('c12TimerGranularityNs', LIB + '::TIMER_GRANULARITY (ns)', granularity_ns)
+
+    def loss_delay_shape():
+        if not re.search(r'let\s+loss_delay\s*=\s*cmp::max\(\s*rtt\.mul_f32\(self\.config\.time_threshold\)\s*,\s*TIMER_GRANULARITY\s*\)\s*;', dlp()):
+            raise TranslateError('detect_lost_packets: loss_delay expression changed')
+        return 'fun (scaledRtt granularity : Nat) => Nat.max scaledRtt granularity'
+    g.term('lossDelayOf', 'Nat → Nat → Nat', MOD + '::detect_lost_packets loss_delay = max(rtt*time_threshold [opaque], TIMER_GRANULARITY)', loss_delay_shape)
+
+    def too_old():
+        m = re.search(r'let\s+packet_too_old\s*=\s*now\.saturating_duration_since\(info\.time_sent\)\s*(>=|>)\s*loss_delay\s*;', dlp())
+        if not m:
+            raise TranslateError('detect_lost_packets: packet_too_old expression changed')
+        return 'fun (now timeSent lossDelay : Nat) => decide ((now - timeSent) %s lossDelay)' % {'>=': '≥', '>': '>'}[m.group(1)]
+    g.term('packetTooOld', 'Nat → Nat → Nat → Bool', MOD + '::detect_lost_packets packet_too_old (saturating subtraction)', too_old)
+
+    def decision():
+        ms = re.findall(r'if\s+(packet_too_old\s*\|\|[^{]*?)\{', dlp())
+        if len(ms) != 1:
+            raise TranslateError(f'detect_lost_packets: decision found {len(ms)} times')
+        e = translate_expr(ms[0], {'packet_too_old': 'tooOld', 'largest_acked_packet': 'largestAcked',
+                                   'packet': 'pn', 'packet_threshold': 'packetThreshold'})
+        return 'fun (tooOld : Bool) (largestAcked pn packetThreshold : Nat) => ' + e
+    g.term('lossDecision', 'Bool → Nat → Nat → Nat → Bool', MOD + '::detect_lost_packets loss decision', decision)
+
+    def candidates():
+        if not re.search(r'space\.sent_packets\.range\(\s*0\s*\.\.\s*largest_acked_packet\s*\)', dlp()):
+            raise TranslateError('detect_lost_packets: candidate range changed')
+        return 'fun (pn largestAcked : Nat) => decide (pn < largestAcked)'
+    g.term('lossCandidate', 'Nat → Nat → Bool', MOD + '::detect_lost_packets candidates = sent_packets.range(0..largest_acked_packet)', candidates)
+
+    def default_packet_threshold():
+        m = re.search(r'\bpacket_threshold\s*:\s*(\d+)\s*,', strip_comments(read(TCFG)))
+        if not m:
+            raise TranslateError('TransportConfig::default packet_threshold')
+        return int(m.group(1))
+    g.nat('defaultPacketThreshold', TCFG + '::TransportConfig::default packet_threshold', default_packet_threshold)
+
